@@ -14,13 +14,19 @@ const Assert_not_state_Name = "assert.not_state"
 var Assert_not_state_ArgumentTypes = []value.Type{value.IdentType}
 
 func Assert_not_state_Validate(args []value.Value) error {
-	if len(args) > 2 {
+	if len(args) < 1 || len(args) > 2 {
 		return errors.ArgumentNotInRange(Assert_not_state_Name, 1, 2, args)
 	}
 
 	for i := range Assert_not_state_ArgumentTypes {
 		if args[i].Type() != Assert_not_state_ArgumentTypes[i] {
 			return errors.TypeMismatch(Assert_not_state_Name, i+1, Assert_not_state_ArgumentTypes[i], args[i].Type())
+		}
+	}
+
+	if len(args) == 2 {
+		if args[1].Type() != value.StringType {
+			return errors.TypeMismatch(Assert_not_state_Name, 2, value.StringType, args[1].Type())
 		}
 	}
 
@@ -42,7 +48,7 @@ func Assert_not_state(
 
 	var message string
 	if len(args) == 2 {
-		message = value.Unwrap[*value.String](args[0]).Value
+		message = value.Unwrap[*value.String](args[1]).Value
 	} else {
 		message = fmt.Sprintf("state should not be %s", expect)
 	}
